@@ -849,12 +849,123 @@ func runC11(p *core.Program, r *core.Report) {
 	}
 	c11Conditional(p, r, m, nk, cpaths)
 	c11Construction(p, r, m, nk)
+	c11TokenMatch(p, r)
 
 	r.Floor("R11.1", 23*23+4*23)
 	r.Floor("R11.4", 27)
 	r.Floor("R11.5", 10+23)
 	r.Floor("R11.6", 3)
 	r.Exhaustive = true
+}
+
+// c11TokenMatch (R11.7): the parser recognises punctuation, operators and brackets with the
+// token predicate `Is(kind, values…)`. It must never answer true for a token of another kind:
+// a string literal whose text happens to be ")" is not a bracket.
+func c11TokenMatch(p *core.Program, r *core.Report) {
+	pk := p.Pkg("parser/lexer")
+	info := pk.TypesInfo
+	n := 0
+	for _, fd := range p.FuncDecls("parser/lexer") {
+		if fd.Body == nil || fd.Recv == nil || fd.Type.Params == nil || fd.Type.Results == nil || fd.Type.Results.NumFields() != 1 {
+			continue
+		}
+		if b, ok := info.TypeOf(fd.Type.Results.List[0].Type).(*types.Basic); !ok || b.Kind() != types.Bool {
+			continue
+		}
+		// a parameter whose type is the type of a field of the receiver (the token kind)
+		recvT := info.TypeOf(fd.Recv.List[0].Type)
+		if pt, ok := recvT.(*types.Pointer); ok {
+			recvT = pt.Elem()
+		}
+		st, ok := recvT.Underlying().(*types.Struct)
+		if !ok {
+			continue
+		}
+		var kindParam types.Object
+		var kindField *types.Var
+		for _, f := range fd.Type.Params.List {
+			for _, nm := range f.Names {
+				o := info.Defs[nm]
+				for i := 0; i < st.NumFields(); i++ {
+					if _, isNamed := o.Type().(*types.Named); isNamed && types.Identical(st.Field(i).Type(), o.Type()) {
+						kindParam, kindField = o, st.Field(i)
+					}
+				}
+			}
+		}
+		if kindParam == nil {
+			continue
+		}
+		n++
+		isKindEq := func(e ast.Expr) (eq, neq bool) {
+			b, ok := eng.Unparen(e).(*ast.BinaryExpr)
+			if !ok || (b.Op != token.EQL && b.Op != token.NEQ) {
+				return
+			}
+			side := func(x ast.Expr) string {
+				switch y := eng.Unparen(x).(type) {
+				case *ast.Ident:
+					if objOf(info, y) == kindParam {
+						return "param"
+					}
+				case *ast.SelectorExpr:
+					if s := info.Selections[y]; s != nil && s.Obj() == types.Object(kindField) {
+						return "field"
+					}
+				}
+				return ""
+			}
+			a, c := side(b.X), side(b.Y)
+			if (a == "param" && c == "field") || (a == "field" && c == "param") {
+				return b.Op == token.EQL, b.Op == token.NEQ
+			}
+			return
+		}
+		w := &eng.Walker{Info: info, MaxPaths: 2000}
+		bad := ""
+		for _, atoms := range flattenPaths(w.Func(fd.Body), 10000) {
+			tested := false
+			for _, a := range atoms {
+				switch a.Kind {
+				case "cond":
+					eq, neq := isKindEq(a.Node.(ast.Expr))
+					if (eq && a.Taken) || (neq && !a.Taken) {
+						tested = true
+					}
+				case "return":
+					rs := a.Node.(*ast.ReturnStmt)
+					if len(rs.Results) != 1 {
+						continue
+					}
+					e := rs.Results[0]
+					if tv, ok := info.Types[e]; ok && tv.Value != nil {
+						if tv.Value.ExactString() == "true" && !tested {
+							bad = p.Pos(rs.Pos())
+						}
+						continue
+					}
+					// a non-constant result must itself contain the kind comparison
+					has := false
+					ast.Inspect(e, func(m ast.Node) bool {
+						if x, ok := m.(ast.Expr); ok {
+							if eq, _ := isKindEq(x); eq {
+								has = true
+							}
+						}
+						return true
+					})
+					if !has && !tested {
+						bad = p.Pos(rs.Pos())
+					}
+				}
+			}
+		}
+		r.Check(bad == "", "R11.7", core.FuncName("parser/lexer", fd)+"/true only for a token of the asked kind", p.Pos(fd.Pos()), "every path that answers true has compared the kinds",
+			"the token predicate can answer true at "+bad+" without having compared the token's kind with the kind asked for: a string literal whose text is `)` , `,` or `:` is then taken for that punctuation — valid programs are rejected or parsed to another tree, invalid token sequences are accepted")
+	}
+	if n == 0 {
+		r.Unk("R11.7", "token predicate", "", "no boolean method of the token type with a kind parameter found")
+	}
 }
 
 func describeUses(us []climbUse) string {
@@ -1273,6 +1384,7 @@ func c11Controls() []core.Mutant {
 		{Name: "binary node built with swapped operands", File: P, Old: "\t\t\t\t\t\tLeft:     nodeLeft,\n\t\t\t\t\t\tRight:    nodeRight,", New: "\t\t\t\t\t\tLeft:     nodeRight,\n\t\t\t\t\t\tRight:    nodeLeft,", Rule: "R11.6", Construct: "BinaryNode literal"},
 		{Name: "conditional branches parsed in swapped order", File: P, Old: "\t\t\texpr1 = p.parseExpression(0)\n\t\t\tp.expect(Operator, \":\")\n\t\t\texpr2 = p.parseExpression(0)", New: "\t\t\texpr2 = p.parseExpression(0)\n\t\t\tp.expect(Operator, \":\")\n\t\t\texpr1 = p.parseExpression(0)", Rule: "R11.6", Construct: "conditional/children in source order"},
 		{Name: "right operand of ** parsed at the outermost level", File: P, Old: "\t\t\t\t\tnodeRight = p.parseExpression(op.precedence)\n", New: "\t\t\t\t\tnodeRight = p.parseExpression(op.precedence - 70)\n", Rule: "R11.4", Construct: "conditional/not inside the right operand of **"},
+		{Name: "token predicate ignores the kind when values are given", File: "parser/lexer/token.go", Old: "\t\tif v == t.Value {\n\t\t\tgoto found\n\t\t}\n\t}\n\treturn false\n\nfound:\n\treturn kind == t.Kind\n}", New: "\t\tif v == t.Value {\n\t\t\treturn true\n\t\t}\n\t}\n\treturn false\n}", Rule: "R11.7", Construct: "true only for a token of the asked kind"},
 		// behaviour-preserving variants
 		{Name: "REFACTORING: all precedences multiplied by ten", File: P, Silent: true,
 			Old: "\"not\": {50, left},", New: "\"not\": {500, left},",
